@@ -85,14 +85,11 @@ def run_codec(ctx) -> RuleResult:
                     if not ok:
                         result.add(Finding("R-CODEC", module, qual, node,
                                            "exponents are encoded with '-' instead of '+ KEY_OFFSET'"))
-            elif decoding and isinstance(node.right, ast.Constant) or (
-                isinstance(node.right, ast.Constant) and isinstance(node.right.value, int)
-                and node.right.value == offset
-            ):
-                if isinstance(node.right, ast.Constant) and isinstance(node.right.value, int) and node.right.value > 1:
-                    result.ob(f"{module.name}.{qual}: no literal offset", False, module.loc(node), U(node))
-                    result.add(Finding("R-CODEC", module, qual, node,
-                                       f"integer literal {node.right.value} stands in for KEY_OFFSET in a key conversion"))
+            elif decoding and isinstance(node.right, ast.Constant) and isinstance(node.right.value, int):
+                n_dec += 1
+                result.ob(f"{module.name}.{qual}: decode site uses KEY_OFFSET", False, module.loc(node), U(node))
+                result.add(Finding("R-CODEC", module, qual, node,
+                                   f"integer literal {node.right.value} stands in for KEY_OFFSET where keys are decoded"))
     # the offset handed to the C multiplier
     mmod = ctx.repo.module("numpoly.array_function.multiply")
     mfunc = ctx.repo.function(mmod.name, "multiply")
